@@ -133,16 +133,23 @@ theorem pickSet_noZero (cfg : FCfg) (cache : List Cached) (s : Sess) (hz : NoZer
   unfold candidates at this
   exact hz c (List.mem_filter.1 this).1
 
-theorem select_noTLS (cfg : FCfg) (listReq : Bool) (cache : List Cached) (hz : NoZero cache) :
-    ∀ orc s, (select cfg false listReq cache orc s).Both (fun out _ => out.rw ≠ Rw.tls) (fun _ => True) := by
+theorem finishList_rw (cfg : FCfg) (skipped : List Cached) (s : Sess) :
+    (finishList cfg skipped s).Both (fun out _ => out.rw ≠ Rw.tls) (fun _ => True) := by
+  unfold finishList
+  split
+  · trivial
+  · show Rw.none ≠ Rw.tls
+    decide
+
+theorem select_noTLS (cfg : FCfg) (listReq : Bool) (cache skipped : List Cached) (hz : NoZero cache) :
+    ∀ orc s, (select cfg false listReq cache skipped orc s).Both (fun out _ => out.rw ≠ Rw.tls) (fun _ => True) := by
   intro orc
   induction orc with
   | nil =>
     intro s
     unfold select
     split
-    · show Rw.none ≠ Rw.tls
-      decide
+    · exact finishList_rw cfg skipped s
     · trivial
   | cons e orc' ih =>
     intro s
@@ -151,8 +158,7 @@ theorem select_noTLS (cfg : FCfg) (listReq : Bool) (cache : List Cached) (hz : N
     unfold select
     generalize pickSet cfg false cache s = al at hps
     split
-    · show Rw.none ≠ Rw.tls
-      decide
+    · exact finishList_rw cfg skipped s
     · dsimp only
       cases hf : al.find? (fun c => c.id == id) with
       | none => trivial
@@ -195,7 +201,7 @@ theorem negotiateFeatures_noTLS (cfg : FCfg) (first : Bool) (s : Sess) (hs : Sec
           decide
         · split
           · trivial
-          · exact select_noTLS cfg req cache hz _ _
+          · exact select_noTLS cfg req cache _ hz _ _
     | _ => trivial
 
 theorem step_noTLS (cfg : FCfg) (fuel : Nat) (s : Sess) (hs : SecP s) :
@@ -321,10 +327,10 @@ theorem negotiateOne_shape (c : Cached) (res : NegRes) (st0 : Mask) (L : List Ev
 def StopShape (L : List Ev) (s : Sess) : Prop :=
   NCO s.trace ∧ (sig s.trace = L ∨ sig s.trace = .wStartTLS false :: L)
 
-theorem select_shape (cfg : FCfg) (doTLS listReq : Bool) (cache : List Cached) (orc : List (Nat × NegRes))
+theorem select_shape (cfg : FCfg) (doTLS listReq : Bool) (cache skipped : List Cached) (orc : List (Nat × NegRes))
     (st0 : Mask) (L : List Ev) (s : Sess) (hp : CS st0 L s) (hct : CacheTLS cache)
     (hne : doTLS = true ∨ cache ≠ []) :
-    (select cfg doTLS listReq cache orc s).Both
+    (select cfg doTLS listReq cache skipped orc s).Both
       (fun out s' => out.rw = .tls ∧ Sec s' ∧ NCO s'.trace ∧ sig s'.trace = .wStartTLS false :: L)
       (StopShape L) := by
   obtain ⟨hal, hids⟩ := pickSet_clear cfg doTLS cache st0 s hp.1 hct hne
@@ -391,11 +397,11 @@ theorem negotiateFeatures_shape (cfg : FCfg) (st0 : Mask) (hc : Compliant cfg st
             | cons _ _ => rfl
           simp only [Bool.not_true, Bool.and_false, Bool.false_and, Bool.not_false, Bool.true_and, hine, hce,
             Bool.false_eq_true, if_false]
-          exact select_shape cfg false req cache s1.oracle st0 L s1 hpl hct (Or.inr hcne)
+          exact select_shape cfg false req cache _ s1.oracle st0 L s1 hpl hct (Or.inr hcne)
         | false =>
           simp only [Bool.not_false, Bool.and_true, Bool.true_and, hpl.1.sec, Bool.not_true, Bool.false_and,
             Bool.false_eq_true, if_false]
-          exact select_shape cfg true req cache s1.oracle st0 L s1 hpl hct (Or.inl rfl)
+          exact select_shape cfg true req cache _ s1.oracle st0 L s1 hpl hct (Or.inl rfl)
     | _ => exact ⟨hpl.1.nco, Or.inl hpl.2⟩
 
 theorem step_shape (cfg : FCfg) (st0 : Mask) (hc : Compliant cfg st0) (fuel : Nat) (s : Sess)
